@@ -40,7 +40,8 @@ var opNames = []string{"avail", "setlist", "advance", "runtimer", "current"}
 var universe, bigIdx = func() ([]string, []int) {
 	// endpoint names are opaque strings (gRPC targets may carry commas, e.g.
 	// "ipv4:10.0.0.1:443,10.0.0.2:443"): one name is the comma-join of two others
-	u := []string{"a", "b", "a,b", "d", "e", "zz-unknown"}
+	// ... and one differs from another in letter case only
+	u := []string{"a", "b", "a,b", "A", "e", "zz-unknown"}
 	idx := []int{0, 1, 2, 3, 4}
 	for i := 0; i < 35; i++ {
 		idx = append(idx, len(u))
@@ -139,6 +140,9 @@ func Generate(r *rand.Rand, profile string, concurrent bool) *Plan {
 	}
 	if !concurrent && r.IntN(10) == 0 {
 		p.InitDup = 1 + r.IntN(5)
+		if p.Big && r.IntN(2) == 0 {
+			p.InitDup = 100 + r.IntN(3)
+		}
 	}
 	rs := []int{0, 0, 10, 20, 50}
 	ds := []int{0, 10, 20, 40, 70}
@@ -218,6 +222,9 @@ func Generate(r *rand.Rand, profile string, concurrent bool) *Plan {
 			}
 			if !concurrent && r.IntN(6) == 0 {
 				o.Dup = 1 + r.IntN(5)
+				if p.Big && r.IntN(2) == 0 {
+					o.Dup = 100 + r.IntN(3)
+				}
 			}
 		case x < 88:
 			o.K = OpAdvance
@@ -558,6 +565,18 @@ type sim struct {
 //
 //go:norace
 func withDup(list []string, dup int) []string {
+	if dup >= 100 && len(list) > 0 {
+		// every entry written dup-98 times in a row (2-4): the same endpoints in the
+		// same priority order, in a list two to four times as long - positions run
+		// past 64 and 128 for long lists
+		var out []string
+		for _, e := range list {
+			for k := 0; k < dup-98; k++ {
+				out = append(out, e)
+			}
+		}
+		return out
+	}
 	if dup <= 0 || len(list) == 0 {
 		return list
 	}
